@@ -488,3 +488,128 @@ _jobs_steps = jobs
 
 def jobs(tier):
     return _jobs_steps(tier) + [(h_int64_real, (n,), 900) for n in ((0, 2) if tier == 'quick' else (0, 1, 2, 3, 4))]
+
+
+# ------------------------------------------------------------------------------------------------ None makes a level optional (the first value after k leading Nones)
+UB = 'src/libawkward/builder/UnknownBuilder.cpp'
+
+
+@guard
+def h_unknown_integer(k):
+    """UnknownBuilder::integer(x) after k leading None values: with k == 0 an integer builder holding [x] takes over; otherwise an option builder
+    whose index is k times -1 followed by 0 over an integer builder holding exactly [x] (the value is entry 0 of the content, the Nones
+    before it stay missing and nothing else is appended)"""
+    from .cpp01 import struct_of
+    mod = module_of(UB)
+    fo, sz, al, fields = mod.types.struct_layout(struct_of(mod, '_ZN7awkward14UnknownBuilder7integerEl'))
+    m = MCtx([UB, I64B, OB, GB, 'src/libawkward/builder/ArrayBuilderOptions.cpp', 'src/libawkward/kernel-dispatch.cpp'], unwind=k + 12, stubs=dict(COMMON_STUBS))
+    x, init = m.bv('x'), m.bv('initial')
+    m.assume(init >= 1, init <= 64)
+    m.record('ctrl', {0: (NULL, 8), 8: (z3.BitVecVal(1, 32), 4), 12: (z3.BitVecVal(1, 32), 4)})
+    st0 = State({}, m.mem, z3.BoolVal(True))
+    vt = m.eng.global_ptr(st0, '@_ZTVN7awkward14UnknownBuilderE', mod)
+    this = m.record('ub', {0: (Ptr(vt.obj, 16), 8), 8: (Ptr('ub', 0), 8), 16: (Ptr('ctrl', 0), 8), fo[1]: (init, 8), fo[1] + 8: (z3.FPVal(1.5, z3.Float64()), 8), fo[2]: (BV(k), 8)})
+    m.record('ret', {})
+    out = m.call('_ZN7awkward14UnknownBuilder7integerEl', [Ptr('ret', 0), this, x])
+    obls = [('the step does not raise', out.raised)]
+
+    def obj_of(p, what):
+        cs = [(g, q) for g, q in ptr_cases(p) if q.obj is not None]
+        if len(cs) != 1:
+            raise Unsupported('%s pointer has %d cases' % (what, len(cs)))
+        return out.mem.o[cs[0][1].obj], cs[0][1].off
+
+    def cls_of(o, base):
+        vp = o.cells.get(base)
+        v = [q.obj for g, q in ptr_cases(vp[0]) if q.obj is not None] if vp else []
+        return str(v[0]) if v else ''
+
+    def growable(o, base):
+        """-> (list of the first entries as terms (by position), length term)"""
+        bp, ln = o.cells[base + 16][0], o.cells[base + 32][0]
+        cs = [(g, q) for g, q in ptr_cases(bp) if q.obj is not None]
+        if not cs:
+            raise Unsupported('buffer pointer is null')
+
+        def ent(i):          # a pointer merged over "still fits" / "reallocated": ite over its cases
+            v = None
+            for g, q in cs:
+                e = z3.Select(out.mem.o[q.obj].arr, z3.simplify(q.off + i))
+                v = e if v is None else z3.If(g, e, v)
+            return v
+        return ent, ln
+    top, tb = obj_of(m.cell('ret', 0), 'returned builder')
+    i64mod, obmod = module_of(I64B), module_of(OB)
+    fi = i64mod.types.struct_layout(struct_of(i64mod, '_ZN7awkward12Int64Builder4realEd'))[0]
+    fob = obmod.types.struct_layout(struct_of(obmod, '_ZN7awkward13OptionBuilder4nullEv'))[0]
+    if k == 0:
+        ib, ibase = top, tb
+        if 'Int64Builder' not in cls_of(top, tb):
+            obls.append(('an integer builder takes over', z3.BoolVal(True)))
+            ib = None
+    else:
+        if 'OptionBuilder' not in cls_of(top, tb):
+            obls.append(('an option builder takes over', z3.BoolVal(True)))
+            ib = None
+        else:
+            ent, ln = growable(top, tb + fob[2])
+            obls.append(('the index has one entry per None plus one', ln != k + 1))
+            for i in range(k):
+                obls.append(('index entry %d is missing (-1)' % i, ent(i) != -1))
+            obls.append(('the value is entry 0 of the content', ent(k) != 0))
+            ib, ibase = obj_of(top.cells[tb + fob[3]][0], 'content builder')
+            if 'Int64Builder' not in cls_of(ib, ibase):
+                obls.append(('the content is an integer builder', z3.BoolVal(True)))
+                ib = None
+    if ib is not None:
+        ent, ln = growable(ib, ibase + fi[2])
+        obls += [('the integer builder holds exactly one value', ln != 1), ('that value is x', ent(0) != x)]
+
+    def replay(model, ent_):
+        import subprocess, os
+        xv = model.eval(x, model_completion=True).as_signed_long()
+        iv = model.eval(init, model_completion=True).as_signed_long()
+        drv = NATIVE_PREFIX.replace('#include "awkward/builder/GrowableBuffer.h"', '#include "awkward/builder/GrowableBuffer.h"\n#include "awkward/builder/Int64Builder.h"\n#include "awkward/builder/UnknownBuilder.h"') + r'''
+int main(int argc, char** argv) {
+  int k = atoi(argv[1]); int64_t x = atoll(argv[2]); int64_t init = atoll(argv[3]);
+  ArrayBuilderOptions opts(init, 1.5);
+  BuilderPtr b = UnknownBuilder::fromempty(opts);
+  for (int i = 0; i < k; i++) b = b->null();
+  BuilderPtr o = b->integer(x);
+  int bad = 0;
+  Int64Builder* ib = nullptr;
+  if (k == 0) ib = dynamic_cast<Int64Builder*>(o.get());
+  else {
+    OptionBuilder* ob = dynamic_cast<OptionBuilder*>(o.get());
+    if (ob == nullptr) bad |= 1;
+    else {
+      if (ob->index_.length() != k + 1) bad |= 2;
+      for (int i = 0; i < k && i < ob->index_.length(); i++) if (ob->index_.ptr().get()[i] != -1) bad |= 4;
+      if (ob->index_.length() > k && ob->index_.ptr().get()[k] != 0) bad |= 8;
+      ib = dynamic_cast<Int64Builder*>(ob->content_.get());
+    }
+  }
+  if (ib == nullptr) bad |= 16; else { if (ib->buffer_.length() != 1) bad |= 32; else if (ib->buffer_.ptr().get()[0] != x) bad |= 64; }
+  printf("bad=%d\n", bad);
+  return bad ? 1 : 0;
+}
+'''
+        try:
+            exe = fullnative_link(drv)
+        except Exception as e:      # noqa
+            return False, 'replay driver did not build: %s' % str(e)[-300:], {}
+        r = subprocess.run([exe, str(k), str(xv), str(iv)], capture_output=True, text=True, timeout=30,
+                           env=dict(os.environ, ASAN_OPTIONS='detect_leaks=0', UBSAN_OPTIONS='halt_on_error=1:exitcode=87'), errors='replace')
+        payload = dict(nones=k, x=xv, initial=iv, native=r.stdout.strip())
+        if r.returncode != 0:
+            return True, '%d None then integer(%d), initial capacity %d: native builders give %s %s' % (k, xv, iv, r.stdout.strip(), r.stderr[-200:] if not r.stdout.strip() else ''), payload
+        return False, 'native builders agree (%s)' % r.stdout.strip(), payload
+    return mdischarge(m, 'UnknownBuilder::integer after %d None' % k, obls, [('more Nones than the initial capacity', init < k)] if k > 1 else [], replay=replay,
+                      extra=dict(bounds='%d leading None (case split), any integer, initial buffer capacity 1..64' % k))
+
+
+_jobs_real = jobs
+
+
+def jobs(tier):
+    return _jobs_real(tier) + [(h_unknown_integer, (k,), 900) for k in ((0, 3) if tier == 'quick' else (0, 1, 2, 3, 5))]
